@@ -36,6 +36,15 @@ def check(ctx, report):
     key_material(ctx, report)
     rsa_exponent_length(ctx, report)
     txt_chunks(ctx, report)
+    # RRSIG inception / expiration (32 bit seconds) and the DNSKEY flag word go through the shared primitives; RSA exponent and
+    # modulus through the fixed length integer primitives (tabulations shared with C11.R4/R5/R6)
+    from .c11 import fixed_mpint, flags_and_timestamps
+    report.rule('C08.R8', 'RRSIG timestamps and DNSKEY flags: the shared primitives write the instant in UTC seconds / the OR of the flags, and read them back')
+    flags_and_timestamps(ctx, report, R4='C08.R8', R5='C08.R8')
+    report.rule('C08.R9', 'RFC 3110 exponent and modulus: the fixed length integer primitives are exact for every bit length and refuse what does not fit')
+    fixed_mpint(ctx, report, ctx.model.cls('ComposerBinary'), ctx.model.cls('ParserBinary'), 'C08.R9', negatives=False)   # RFC 3110 integers are unsigned
+    report.floor('C08.R8', 100, 'tabulated flag words and instants')
+    report.floor('C08.R9', 300, 'tabulated integers')
     report.floor('C08.R1', 12, 'layout comparisons')
 
 
